@@ -82,6 +82,7 @@ PROPS["C02"] = {
     "technique": "TODO",
     "rule": "TODO",
     "monitors": [
+        {"name": "C02.node", "test": "TestVerifC02Node", "shards": 16},
         {"name": "C02.cache.small", "test": "TestVerifC02CacheSmall", "pkg": "timecache", "shards": 16},
         {"name": "C02.cache.rand", "test": "TestVerifC02CacheRand", "pkg": "timecache", "shards": 16},
         {"name": "C02.cache.stress", "test": "TestVerifC02CacheStress", "pkg": "timecache", "shards": 4, "gomaxprocs": 8, "bubble": False, "race": True},
